@@ -15,11 +15,17 @@ Definition dec_strings (v : gval) : res (list sym) :=
   | _ => Err EOther
   end.
 
-(** UUID.UnmarshalJSON *)
+(** UUID.UnmarshalJSON.  The error of the inner json.Unmarshal is assigned to a
+    shadowing variable and lost: anything that is not an array of strings
+    decodes, without error, to the empty UUID. *)
 Definition dec_uuid (v : gval) : res gval :=
-  l <- dec_strings v ;;
-  if negb (Nat.eqb (length l) 2) then Err EOther
-  else u <- idx l 1 ;; Ok (GUuid u).
+  match dec_strings v with
+  | Ok l =>
+      if negb (Nat.eqb (length l) 2) then Err EOther
+      else u <- idx l 1 ;; Ok (GUuid u)
+  | Err _ => Ok (GUuid s_empty)
+  | Panic => Panic
+  end.
 
 Fixpoint notation (fuel : nat) (v : gval) {struct fuel} : res gval :=
   match fuel with
